@@ -1,2 +1,425 @@
-//! Engine S: controlled scheduler (placeholder; filled in below).
+//! Engine S: a controlled scheduler over the tower's instrumented synchronisation primitives.
+//!
+//! Controlled threads are real OS threads, but only one of them runs at a time: before every lock
+//! acquisition, condition wait, notification and atomic load/store (hook H2) a thread publishes the
+//! operation it is about to perform and parks until the scheduler picks it. The scheduler follows a
+//! recorded choice sequence and then a default policy (keep running the current thread), which makes
+//! every execution reproducible from its choice list. Exploration is depth-first over choice
+//! sequences by re-execution, bounded by the number of pre-emptions.
+
+use std::collections::{BTreeMap, HashMap};
+use std::panic::{catch_unwind, AssertUnwindSafe, Location};
+use std::sync::{Arc, Condvar as StdCondvar, Mutex as StdMutex};
+
+use teos::verif_sync::{set_thread_hooks, Hooks};
+
+/// Payload used to unwind threads that are still parked when an execution is torn down.
 pub struct Teardown;
+
+#[derive(Clone, Debug, PartialEq, Eq)]
+pub enum Op {
+    Start,
+    Lock(usize),
+    Wait { cv: usize, mutex: usize },
+    /// After having been notified: take the mutex again.
+    Reacquire(usize),
+    Notify { cv: usize, all: bool },
+    Atomic { id: usize, store: bool },
+}
+
+#[derive(Default)]
+struct ThreadSt {
+    pending: Option<Op>,
+    parked: bool,
+    finished: bool,
+    held: Vec<usize>,
+    panicked: Option<String>,
+}
+
+#[derive(Clone, Debug)]
+pub struct PointRec {
+    /// Enabled threads in canonical order (previously running thread first if still enabled).
+    pub enabled: Vec<usize>,
+    pub chosen: usize,
+    pub running_still_enabled: bool,
+    pub op: String,
+}
+
+#[derive(Default)]
+struct State {
+    threads: Vec<ThreadSt>,
+    running: Option<usize>,
+    last_running: Option<usize>,
+    holder: HashMap<usize, usize>,
+    names: BTreeMap<usize, String>,
+    per_file: HashMap<String, usize>,
+    teardown: bool,
+    points: Vec<PointRec>,
+    choices: Vec<usize>,
+    deadlock: Option<String>,
+    diverged: Option<String>,
+    lock_order: Vec<(usize, usize)>,
+    started: bool,
+}
+
+pub struct Sched {
+    st: StdMutex<State>,
+    cv: StdCondvar,
+}
+
+thread_local! {
+    static TID: std::cell::Cell<Option<usize>> = const { std::cell::Cell::new(None) };
+}
+
+impl Sched {
+    pub fn new(choices: Vec<usize>) -> Arc<Sched> {
+        Arc::new(Sched {
+            st: StdMutex::new(State { choices, ..Default::default() }),
+            cv: StdCondvar::new(),
+        })
+    }
+
+    fn lock(&self) -> std::sync::MutexGuard<'_, State> {
+        match self.st.lock() {
+            Ok(g) => g,
+            Err(p) => p.into_inner(),
+        }
+    }
+
+    pub fn name_of(&self, id: usize) -> String {
+        self.lock().names.get(&id).cloned().unwrap_or_else(|| format!("#{id}"))
+    }
+
+    fn op_name(st: &State, op: &Op) -> String {
+        let n = |id: &usize| st.names.get(id).cloned().unwrap_or_else(|| format!("#{id}"));
+        match op {
+            Op::Start => "start".into(),
+            Op::Lock(m) => format!("lock({})", n(m)),
+            Op::Wait { cv, mutex } => format!("wait({},{})", n(cv), n(mutex)),
+            Op::Reacquire(m) => format!("reacquire({})", n(m)),
+            Op::Notify { cv, all } => format!("notify{}({})", if *all { "_all" } else { "_one" }, n(cv)),
+            Op::Atomic { id, store } => format!("{}({})", if *store { "store" } else { "load" }, n(id)),
+        }
+    }
+
+    /// Called by a controlled thread: publish `op`, park until scheduled, then apply its effect.
+    fn point(&self, tid: usize, op: Op) {
+        let mut st = self.lock();
+        if st.teardown {
+            drop(st);
+            std::panic::panic_any(Teardown);
+        }
+        st.threads[tid].pending = Some(op);
+        st.threads[tid].parked = true;
+        if st.running == Some(tid) {
+            st.running = None;
+        }
+        self.cv.notify_all();
+        loop {
+            if st.teardown {
+                st.threads[tid].parked = false;
+                drop(st);
+                std::panic::panic_any(Teardown);
+            }
+            if st.running == Some(tid) && !matches!(st.threads[tid].pending, Some(Op::Wait { .. })) {
+                break;
+            }
+            st = match self.cv.wait(st) {
+                Ok(g) => g,
+                Err(p) => p.into_inner(),
+            };
+        }
+        // scheduled: apply the effect on the model
+        let op = st.threads[tid].pending.take().unwrap();
+        st.threads[tid].parked = false;
+        match op {
+            Op::Lock(m) | Op::Reacquire(m) => {
+                let held: Vec<usize> = st.threads[tid].held.clone();
+                for h in held {
+                    st.lock_order.push((h, m));
+                }
+                st.holder.insert(m, tid);
+                st.threads[tid].held.push(m);
+            }
+            Op::Notify { cv, all } => {
+                let mut woke = false;
+                for t in 0..st.threads.len() {
+                    if let Some(Op::Wait { cv: c, mutex }) = st.threads[t].pending.clone() {
+                        if c == cv && (all || !woke) {
+                            st.threads[t].pending = Some(Op::Reacquire(mutex));
+                            woke = true;
+                        }
+                    }
+                }
+            }
+            _ => {}
+        }
+    }
+
+    fn unlocked(&self, tid: usize, m: usize) {
+        let mut st = self.lock();
+        if st.holder.get(&m) == Some(&tid) {
+            st.holder.remove(&m);
+        }
+        if let Some(pos) = st.threads[tid].held.iter().rposition(|x| *x == m) {
+            st.threads[tid].held.remove(pos);
+        }
+    }
+
+    fn finished(&self, tid: usize, panicked: Option<String>) {
+        let mut st = self.lock();
+        st.threads[tid].finished = true;
+        st.threads[tid].parked = false;
+        st.threads[tid].panicked = panicked;
+        // a thread that dies holding locks leaves them poisoned but released
+        let held: Vec<usize> = st.threads[tid].held.drain(..).collect();
+        for m in held {
+            if st.holder.get(&m) == Some(&tid) {
+                st.holder.remove(&m);
+            }
+        }
+        if st.running == Some(tid) {
+            st.running = None;
+        }
+        self.cv.notify_all();
+    }
+
+    fn enabled(st: &State) -> Vec<usize> {
+        let mut v = Vec::new();
+        for (t, th) in st.threads.iter().enumerate() {
+            if th.finished || !th.parked {
+                continue;
+            }
+            let ok = match th.pending.as_ref() {
+                Some(Op::Lock(m)) | Some(Op::Reacquire(m)) => !st.holder.contains_key(m),
+                Some(Op::Wait { .. }) => false,
+                Some(_) => true,
+                None => false,
+            };
+            if ok {
+                v.push(t);
+            }
+        }
+        v
+    }
+
+    /// The scheduler loop; returns when every thread has finished (or after a deadlock was torn down).
+    fn drive(&self) {
+        let mut st = self.lock();
+        loop {
+            // wait until nobody is running and every unfinished thread is parked
+            loop {
+                let settled = st.running.is_none() && st.threads.iter().all(|t| t.finished || t.parked);
+                if settled {
+                    break;
+                }
+                st = match self.cv.wait(st) {
+                    Ok(g) => g,
+                    Err(p) => p.into_inner(),
+                };
+            }
+            if st.threads.iter().all(|t| t.finished) {
+                return;
+            }
+            let mut en = Self::enabled(&st);
+            if en.is_empty() {
+                if st.teardown {
+                    // threads are unwinding; keep waiting for them to finish
+                    st = match self.cv.wait_timeout(st, std::time::Duration::from_millis(50)) {
+                        Ok((g, _)) => g,
+                        Err(p) => p.into_inner().0,
+                    };
+                    continue;
+                }
+                // circular wait (or waiting for a notification nobody will send)
+                let mut desc = Vec::new();
+                for (t, th) in st.threads.iter().enumerate() {
+                    if !th.finished {
+                        let held: Vec<String> = th.held.iter().map(|m| st.names.get(m).cloned().unwrap_or_default()).collect();
+                        desc.push(format!("T{t} holds {held:?} wants {}", th.pending.as_ref().map(|o| Self::op_name(&st, o)).unwrap_or_default()));
+                    }
+                }
+                st.deadlock = Some(desc.join("; "));
+                st.teardown = true;
+                self.cv.notify_all();
+                continue;
+            }
+            // canonical order: the thread that ran last first (if still enabled), then ascending
+            let last = st.last_running;
+            let running_still_enabled = last.map_or(false, |l| en.contains(&l));
+            if let Some(l) = last {
+                if running_still_enabled {
+                    en.retain(|t| *t != l);
+                    en.insert(0, l);
+                }
+            }
+            let idx = st.points.len();
+            let choice = if idx < st.choices.len() { st.choices[idx] } else { 0 };
+            if choice >= en.len() {
+                st.diverged = Some(format!("choice {choice} at point {idx} but only {} threads enabled", en.len()));
+                st.teardown = true;
+                self.cv.notify_all();
+                continue;
+            }
+            let t = en[choice];
+            let op = st.threads[t].pending.as_ref().map(|o| Self::op_name(&st, o)).unwrap_or_default();
+            st.points.push(PointRec { enabled: en.clone(), chosen: choice, running_still_enabled, op: format!("T{t}:{op}") });
+            st.running = Some(t);
+            st.last_running = Some(t);
+            self.cv.notify_all();
+        }
+    }
+}
+
+struct HookTable(Arc<Sched>);
+
+impl Hooks for HookTable {
+    fn created(&self, id: usize, kind: &'static str, at: &'static Location<'static>) {
+        let mut st = self.0.lock();
+        let file = at.file().rsplit('/').next().unwrap_or(at.file()).trim_end_matches(".rs").to_owned();
+        let key = format!("{file}:{kind}");
+        let n = st.per_file.entry(key).or_insert(0);
+        let name = format!("{file}.{kind}{}", *n);
+        *n += 1;
+        st.names.insert(id, name);
+    }
+    fn before_lock(&self, id: usize) {
+        if let Some(t) = TID.with(|t| t.get()) {
+            self.0.point(t, Op::Lock(id));
+        }
+    }
+    fn after_unlock(&self, id: usize) {
+        if let Some(t) = TID.with(|t| t.get()) {
+            self.0.unlocked(t, id);
+        }
+    }
+    fn wait(&self, condvar: usize, mutex: usize) {
+        if let Some(t) = TID.with(|t| t.get()) {
+            self.0.unlocked(t, mutex);
+            self.0.point(t, Op::Wait { cv: condvar, mutex });
+        }
+    }
+    fn notify(&self, condvar: usize, all: bool) {
+        if let Some(t) = TID.with(|t| t.get()) {
+            self.0.point(t, Op::Notify { cv: condvar, all });
+        }
+    }
+    fn atomic(&self, id: usize, store: bool) {
+        if let Some(t) = TID.with(|t| t.get()) {
+            self.0.point(t, Op::Atomic { id, store });
+        }
+    }
+}
+
+/// Result of one controlled execution.
+pub struct Execution<R> {
+    pub results: Vec<Option<R>>,
+    pub panics: Vec<Option<String>>,
+    pub points: Vec<PointRec>,
+    pub deadlock: Option<String>,
+    pub diverged: Option<String>,
+    pub lock_order: Vec<(String, String)>,
+}
+
+/// Installs the hook table of `sched` on the calling (uncontrolled) thread so that primitives created
+/// while setting up are named. Returns a guard that removes it again.
+pub struct SetupGuard;
+impl Drop for SetupGuard {
+    fn drop(&mut self) {
+        set_thread_hooks(None);
+    }
+}
+pub fn setup_hooks(sched: &Arc<Sched>) -> SetupGuard {
+    set_thread_hooks(Some(Arc::new(HookTable(sched.clone()))));
+    SetupGuard
+}
+
+/// Runs the given bodies as controlled threads under `sched`.
+pub fn run_threads<R: Send + 'static>(sched: &Arc<Sched>, bodies: Vec<Box<dyn FnOnce() -> R + Send>>) -> Execution<R> {
+    let n = bodies.len();
+    {
+        let mut st = sched.lock();
+        st.threads = (0..n).map(|_| ThreadSt::default()).collect();
+        st.started = true;
+    }
+    let results: Arc<StdMutex<Vec<Option<R>>>> = Arc::new(StdMutex::new((0..n).map(|_| None).collect()));
+    let mut handles = Vec::new();
+    for (tid, body) in bodies.into_iter().enumerate() {
+        let sched2 = sched.clone();
+        let results2 = results.clone();
+        handles.push(
+            std::thread::Builder::new()
+                .name(format!("verif-T{tid}"))
+                .stack_size(4 * 1024 * 1024)
+                .spawn(move || {
+                    TID.with(|t| t.set(Some(tid)));
+                    set_thread_hooks(Some(Arc::new(HookTable(sched2.clone()))));
+                    let r = catch_unwind(AssertUnwindSafe(|| {
+                        sched2.point(tid, Op::Start);
+                        body()
+                    }));
+                    set_thread_hooks(None);
+                    match r {
+                        Ok(v) => {
+                            results2.lock().unwrap()[tid] = Some(v);
+                            sched2.finished(tid, None);
+                        }
+                        Err(p) => {
+                            let msg = if p.downcast_ref::<Teardown>().is_some() {
+                                None
+                            } else {
+                                Some(format!("{} @{}", crate::world::panic_message(&p), crate::world::take_panic_location()))
+                            };
+                            sched2.finished(tid, msg);
+                        }
+                    }
+                })
+                .unwrap(),
+        );
+    }
+    sched.drive();
+    for h in handles {
+        let _ = h.join();
+    }
+    let st = sched.lock();
+    let mut lo: Vec<(String, String)> = st
+        .lock_order
+        .iter()
+        .map(|(a, b)| (st.names.get(a).cloned().unwrap_or_default(), st.names.get(b).cloned().unwrap_or_default()))
+        .collect();
+    lo.sort();
+    lo.dedup();
+    let results = std::mem::take(&mut *results.lock().unwrap());
+    Execution {
+        results,
+        panics: st.threads.iter().map(|t| t.panicked.clone()).collect(),
+        points: st.points.clone(),
+        deadlock: st.deadlock.clone(),
+        diverged: st.diverged.clone(),
+        lock_order: lo,
+    }
+}
+
+/// Number of pre-emptions in the first `upto` points of a recorded execution.
+pub fn preemptions(points: &[PointRec], upto: usize) -> usize {
+    points[..upto].iter().filter(|p| p.running_still_enabled && p.chosen != 0).count()
+}
+
+/// Children of an executed choice sequence under a pre-emption bound (see module docs).
+pub fn children(prefix_len: usize, points: &[PointRec], bound: usize) -> Vec<Vec<usize>> {
+    let mut out = Vec::new();
+    for i in prefix_len..points.len() {
+        let p = &points[i];
+        let base = preemptions(points, i);
+        for alt in 1..p.enabled.len() {
+            let cost = base + if p.running_still_enabled { 1 } else { 0 };
+            if cost > bound {
+                continue;
+            }
+            let mut c: Vec<usize> = points[..i].iter().map(|q| q.chosen).collect();
+            c.push(alt);
+            out.push(c);
+        }
+    }
+    out
+}
